@@ -65,33 +65,54 @@ def confirm(outdir, m, name, pid):
                    "runs": []}, open(os.path.join(d, "meta.json"), "w"), indent=1)
     return ok
 
-def run(name, pids):
+def run(name, pids, scratch=False):
+    """default: the procedure of the brief (apply to /repo, run, undo).  scratch=True: apply to a scratch worktree and point the
+    checks at it with VERIF_REPO, so that several changes can be tried while /repo is in use (development convenience)."""
     d = os.path.join(SEEDED, name)
     meta = json.load(open(os.path.join(d, "meta.json")))
     pids = pids or [meta["property"]]
-    rc, o = sh("git -C /repo status --porcelain")
-    assert o.strip() == "", "/repo not clean: " + o
-    rc, o = sh("git -C /repo apply %s" % os.path.join(d, "patch.diff"))
+    if scratch:
+        repo = "/tmp/mut_" + name
+        sh("git -C /repo worktree remove --force %s" % repo)
+        rc, o = sh("git -C /repo worktree add -q --detach %s HEAD" % repo)
+        assert rc == 0, o
+    else:
+        repo = "/repo"
+        rc, o = sh("git -C /repo status --porcelain")
+        assert o.strip() == "", "/repo not clean: " + o
+    rc, o = sh("git -C %s apply %s" % (repo, os.path.join(d, "patch.diff")))
     assert rc == 0, o
     try:
         for pid in pids:
             t0 = time.time()
             # evidence and replay files of a run against a seeded change never land in the committed directories
             env = dict(os.environ, VERIF_EVID=os.path.join(ROOT, "work", "seeded_evidence"), VERIF_REPLAYS=os.path.join(ROOT, "work", "seeded_replays"))
+            if scratch:
+                env["VERIF_REPO"] = repo
+                env["VERIF_WORK"] = os.path.join(ROOT, "work", "mut_" + name)
+                env["VERIF_HARNESS"] = os.path.join(ROOT, "work", "mut_" + name, "harness")
+                if not os.path.exists(env["VERIF_HARNESS"]):
+                    shutil.copytree(os.path.join(ROOT, "harness"), env["VERIF_HARNESS"], symlinks=True, ignore=shutil.ignore_patterns("target", "repo-link"))
             rc, o = sh("./check %s --tier quick" % pid, cwd=ROOT, env=env)
             viol = [l for l in o.splitlines() if l.startswith("VIOLATION")]
             out = {"check": pid, "tier": "quick", "exit": rc, "violation_lines": len(viol), "wall_s": round(time.time() - t0), "detected": rc == 1 and bool(viol),
-                   "repo_head": sh("git -C /repo log --format=%h -1")[1].strip()}
+                   "repo_head": sh("git -C /repo log --format=%h -1")[1].strip(), "verif_head": sh("git -C %s log --format=%%h -1" % ROOT)[1].strip()}
             if rc == 2:
                 out["tool_error"] = o[-600:]
             meta["runs"] = [r for r in meta["runs"] if r["check"] != pid] + [out]
             print(name, pid, "DETECTED" if out["detected"] else ("TOOL-ERROR" if rc == 2 else "MISSED"), "rc=%d %ds" % (rc, out["wall_s"]))
     finally:
-        sh("git -C /repo checkout -- .")
+        if scratch:
+            sh("git -C /repo worktree remove --force %s" % repo)
+            shutil.rmtree(repo, ignore_errors=True)
+            shutil.rmtree(os.path.join(ROOT, "work", "mut_" + name), ignore_errors=True)
+        else:
+            sh("git -C /repo checkout -- .")
         json.dump(meta, open(os.path.join(d, "meta.json"), "w"), indent=1)
 
 if __name__ == "__main__":
     if sys.argv[1] == "confirm":
         sys.exit(0 if confirm(*sys.argv[2:6]) else 1)
     elif sys.argv[1] == "run":
-        run(sys.argv[2], sys.argv[3:])
+        args = [a for a in sys.argv[2:] if a != "--scratch"]
+        run(args[0], args[1:], scratch="--scratch" in sys.argv)
